@@ -5,7 +5,7 @@
    Only statements, each closed by [exact], each followed by Print Assumptions. *)
 From Coq Require Import List NArith ZArith.
 Import ListNotations.
-From GMS Require Import Sys.ProcessList Sys.ProcessListProofs.
+From GMS Require Import Sys.ProcessList Sys.ProcessListProofs gen.C37CallSites Sys.C37Discipline.
 Open Scope N_scope.
 
 (* Processes() shows only connected sessions, each with exactly its running query (or none) *)
@@ -120,6 +120,39 @@ Theorem C37_contexts_never_reused :
   snd (step (run init (es1 ++ e1 :: es2)) e2) = OCtx k2 -> k1 < k2.
 Proof. exact contexts_never_reused. Qed.
 Print Assumptions C37_contexts_never_reused.
+
+(* ---- where the discipline comes from (checked against /repo's current source on every run) ---- *)
+
+(* the ProcessList call sites of the non-test sources (gen/C37CallSites.v, regenerated by the translator) are exactly
+   the ones the specification machine was read from: AddConn / ConnReady / SetDB / RemoveConn, ComPrepare /
+   ComPrepareParsed / ComBind, doQuery, the tracked row iterator's callback, the KILL statement, Engine.Close *)
+Theorem C37_call_sites_are_the_modelled_ones : sites_eqb call_sites expected_sites = true.
+Proof. exact call_sites_are_the_modelled_ones. Qed.
+Print Assumptions C37_call_sites_are_the_modelled_ones.
+
+(* every BeginQuery / BeginOperation call site is followed, in the same function, by the deferred EndQuery /
+   EndOperation (so the bracket is closed on success, error and cancellation alike) *)
+Theorem C37_every_begin_has_its_deferred_end : brackets_ok call_sites = true.
+Proof. exact every_begin_has_its_deferred_end. Qed.
+Print Assumptions C37_every_begin_has_its_deferred_end.
+
+(* the event sequence of every handler entry point (ConnReady; SetDB; Prepare/Bind; doQuery with one or two
+   EndQuery calls), issued for an idle connection with a fresh non-zero pid, extends any accepted history to an
+   accepted history — whatever the other connections are doing — and leaves the connection idle *)
+Theorem C37_handler_command_accepted :
+  forall es g c k, srun sinit es = Some g -> lookup (sess g) c = Some SIdle -> cmd_pid_ok g k ->
+  exists g', srun sinit (es ++ cmd_events c k) = Some g' /\ lookup (sess g') c = Some SIdle.
+Proof. exact handler_command_accepted. Qed.
+Print Assumptions C37_handler_command_accepted.
+
+Theorem C37_connection_open_close_accepted :
+  forall es g c h, srun sinit es = Some g ->
+  (lookup (sess g) c = None ->
+     exists g', srun sinit (es ++ [EAddInc c; EAddIns c h]) = Some g' /\ lookup (sess g') c = Some SIdle) /\
+  (lookup (sess g) c = Some SIdle ->
+     exists g', srun sinit (es ++ [ERemove c]) = Some g' /\ lookup (sess g') c = None).
+Proof. exact connection_open_close_accepted. Qed.
+Print Assumptions C37_connection_open_close_accepted.
 
 (* non-vacuity: a well-formed history with interleaved connections, a kill, a repeated EndQuery and a
    ConnectionReady inside an operation bracket *)
